@@ -996,12 +996,14 @@ func (ar *ambRunner) run(sc script) (res result) {
 		}
 		before := cur
 		cvBefore := candView()
+		// "ok@<kind>": the well-formed document with a verification method of another kind (no prediction by the model)
+		variant := strings.HasPrefix(df, "ok@")
 		auth, why := true, "not evaluated for defective documents"
-		if df == "none" {
+		if df == "none" || variant {
 			auth, why = ar.refAuthorised(n, c, accepted)
 		}
 		wf, wfWhy := refWellFormed(c.payload)
-		if wf != (df == "none") {
+		if wf != (df == "none" || variant) {
 			return "", fmt.Errorf("self-test: defect class %s on %s is classified well-formed=%v (%s) by the reference", df, tname, wf, wfWhy)
 		}
 		verdict, stage, detail := receive(n, c)
@@ -1068,7 +1070,9 @@ func (ar *ambRunner) run(sc script) (res result) {
 				}
 			}
 		}
-		trace = append(trace, ev)
+		if !variant {
+			trace = append(trace, ev)
+		}
 		return verdict, nil
 	}
 
